@@ -18,3 +18,9 @@ chk('C12', 'exploration',
     'result must equal the generated tree, names must map back to opcodes, and re-encoding must reproduce the input bytes.',
     'Operand table transcribed from DWARF 5 2.5/7.7.1 and the GNU/WASM extension notes; minimal LEB128 operands.',
     'ground-truth generator + reference operand table, round-trip re-encoding oracle', 'DESIGN.md section 4 C12')
+chk('C14', 'exploration',
+    'Ground-truth oracle: generated note extents (all name/descriptor residues, header-only final note, colliding foreign-owner types, GNU '
+    'and core descriptors) in real images are read through the section and the segment front end with the shared stream repositioned '
+    'at every yield; order, fields, decoded descriptors, offsets, padded sizes, exact tiling of the extent and view equality are compared.',
+    'Generator independent of elftools; type names expected from the table selected by e_type; x86/aarch64 property values 4 bytes.',
+    'ground-truth generator oracle + stream-position poisoning at generator yields + conservation check over offsets', 'DESIGN.md section 4 C14')
